@@ -414,8 +414,25 @@ type D struct {
 				sb.WriteString("// " + n + "\n")
 			}
 		}
+		if t.ch(0.35) {
+			// notations that are valid on methods only, written on the interface (they are to be ignored there), in numbers
+			// that leave spare capacity in a slice grown by append
+			methodOnly := []string{":skip ID", ":skip Name", ":skip Stat", ":skip count", ":skip /^N/", ":map ID Count", ":literal Name \"x\"", ":skip Count", ":skip Missing"}
+			for _, i := range t.r.Perm(len(methodOnly))[:3+t.r.Intn(5)] {
+				sb.WriteString("// " + methodOnly[i] + "\n")
+			}
+			t.feat("method-only-notations-on-interface")
+		}
 		fmt.Fprintf(&sb, "type %s interface {\n", iname)
 		for j := 0; j < 1+t.r.Intn(3); j++ {
+			if t.ch(0.5) {
+				fmt.Fprintf(&sb, "\t// :skip %s\n", t.pick("ID", "Name", "Stat"))
+			}
+			if t.ch(0.35) {
+				// a regexp pattern written before the method flips the case rule back (or forth): the rule in force for the
+				// method is the one that counts, not the one in force when the line was read
+				fmt.Fprintf(&sb, "\t// :skip %s\n\t// %s\n", t.pick("/^(id|name)$/", "/^(ID|Name)$/", "/^s/", "/^S/", "/t$/", "/T$/"), t.pick(":case", ":case:off", ":case"))
+			}
 			for _, n := range []string{":typecast", ":stringer:off", ":getter", ":case", ":style return", ":match name", ":typecast:off", ":stringer"} {
 				if t.ch(0.15) {
 					sb.WriteString("\t// " + n + "\n")
@@ -620,6 +637,15 @@ func postC(d *D, s *S) *FieldError        { return nil }
 			sb.WriteString("\t// :style arg\n")
 		}
 		res := t.pick("(*D, error)", "(*D, error)", "*D", "(D, error)")
+		if t.ch(0.3) {
+			// a `$n` source that is an error-returning getter of an additional argument
+			fmt.Fprintf(&sb, "\t// :map $2.N() %s\n", t.pick("N", "P"))
+			if t.ch(0.4) {
+				sb.WriteString("\t// :map $2.Plain() P\n")
+			}
+			fmt.Fprintf(&sb, "\t%s%d(s *S, other *S) %s\n", t.pick("Conv", "Must", "A"), j, res)
+			continue
+		}
 		fmt.Fprintf(&sb, "\t%s%d(*S) %s\n", t.pick("Conv", "Must", "A"), j, res)
 	}
 	sb.WriteString("}\n")
@@ -708,8 +734,16 @@ func famSelection(t *tgen) {
 	useNamed := t.ch(0.5)
 	docs := []string{"// :convergen", "//:convergen", "//  :convergen  trailing", "// // :convergen", "// see :convergen for details", "// :convergence",
 		"// :convergen.", "/* :convergen */", "// :Convergen", "// Marker: :convergen", "// :convergen-off", "// :convergen2"}
+	usedNames := map[string]bool{}
 	for k := 0; k < 2+t.r.Intn(3); k++ {
-		name := t.pick("Alpha", "Beta", "Mapper", "zed", "Other") + fmt.Sprint(k)
+		name := t.pick("Alpha", "Beta", "Mapper", "zed", "Other", "PostConvergen", "MyConvergen", "ConvergenX", "convergen") + fmt.Sprint(k)
+		if t.ch(0.15) {
+			name = t.pick("PostConvergen", "XConvergen", "NotConvergen")
+		}
+		if usedNames[name] {
+			name += fmt.Sprint(k)
+		}
+		usedNames[name] = true
 		if k == 0 && useNamed {
 			name = "Convergen"
 		}
@@ -735,6 +769,12 @@ func famSelection(t *tgen) {
 			t.feat("method-name-clash-candidate")
 		}
 		fmt.Fprintf(&sb, "type %s interface {\n\t// :skip A\n%s\t%s(*S) *D\n}\n\n", name, recv, mname)
+	}
+	if t.ch(0.25) {
+		// a converter interface without methods (all of them commented out): it is replaced by nothing
+		sb.WriteString(t.pick("// :convergen\ntype Hollow interface {\n}\n\n", "// Hollow has nothing yet.\n// :convergen\ntype Hollow interface {\n\t// :typecast\n\t// Later(*S) *D\n}\n\n",
+			"// :convergen\ntype Hollow interface{}\n\n"))
+		t.feat("converter-interface-without-methods")
 	}
 	if !useNamed && t.ch(0.4) {
 		sb.WriteString("// :convergen\ntype Sure interface {\n\tSure(*S) *D\n}\n")
@@ -905,6 +945,11 @@ func famCandidates(t *tgen) {
 	t.feat("family:candidate-search")
 	tyPool := []string{"int", "string", "int64", "Money", "E1", "E2", "[]int", "Name"}
 	spell := [][]string{{"ID", "Id", "iD", "id"}, {"Name", "NAME", "name", "nAme"}, {"In", "IN", "in"}}
+	if t.ch(0.4) {
+		// case variants whose UTF-8 lengths differ (sharp s, long s, Kelvin sign)
+		spell = append(spell, [][]string{{"Straße", "STRAẞE", "straße"}, {"Las", "Laſ", "LAS"}, {"Kilo", "Kilo", "kilo"}}[t.r.Intn(3)])
+		t.feat("case-variants-of-different-utf8-length")
+	}
 	var ty strings.Builder
 	fmt.Fprintf(&ty, "package %s\n\ntype Money struct{ Amount int }\ntype E1 struct{}\ntype E2 struct{}\ntype Name string\n\n", t.name)
 	// source: for each base name two or three spellings with different types, in random order
@@ -1124,11 +1169,11 @@ func famPlain(t *tgen) {
 	t.feat("family:plain-struct-pairs")
 	pool := []string{"int", "int64", "string", "bool", "*int", "MyInt", "Inner", "Inner2", "*Inner", "interface{}", "error", "map[string]int",
 		"[2]int", "func() error", "chan int", "Stringer", "Status", "E1", "E2", "struct{ K, V int }", "ext.Pub", "*ext.Pub", "ext.Kind",
-		"struct {\n\t\tKey string\n\t\trev int\n\t}", "struct {\n\t\tKey string\n\t\trev int64\n\t\tn   bool\n\t}", "struct{ hidden int }", "ext.Anon"}
+		"struct {\n\t\tKey string\n\t\trev int\n\t}", "struct {\n\t\tKey string\n\t\trev int64\n\t\tn   bool\n\t}", "struct{ hidden int }", "ext.Anon", "Tree", "Tree2", "*Tree", "Ring"}
 	names := []string{"A", "B", "C", "Dd", "E", "F", "G", "H", "id", "name", "In", "Out", "Ext"}
 	ext := "package ext\n\ntype Kind int\ntype Pub struct {\n\tA int\n\tb int\n}\ntype Anon struct {\n\tMeta struct {\n\t\tKey string\n\t\trev int\n\t}\n}\n"
 	var ty strings.Builder
-	fmt.Fprintf(&ty, "package %s\n\nimport \"exp/%s/ext\"\n\nvar _ ext.Kind\n\ntype MyInt int\ntype Stringer interface{ String() string }\ntype Status string\n\nfunc (s Status) String() string { return string(s) }\n\ntype E1 struct{}\ntype E2 struct{}\ntype Inner struct {\n\tX int\n\tY string\n}\ntype Inner2 struct {\n\tX int\n\tY string\n\tZ bool\n}\n\n", t.name, t.name)
+	fmt.Fprintf(&ty, "package %s\n\nimport \"exp/%s/ext\"\n\nvar _ ext.Kind\n\ntype MyInt int\ntype Stringer interface{ String() string }\ntype Status string\n\nfunc (s Status) String() string { return string(s) }\n\ntype E1 struct{}\ntype E2 struct{}\ntype Inner struct {\n\tX int\n\tY string\n}\ntype Inner2 struct {\n\tX int\n\tY string\n\tZ bool\n}\ntype Tree struct {\n\tVal  int\n\tNext *Tree\n}\ntype Tree2 struct {\n\tVal  int\n\tNext *Tree2\n\tKids []*Tree2\n}\ntype Ring struct {\n\tA *RingB\n}\ntype RingB struct {\n\tR *Ring\n\tN int\n}\n\n", t.name, t.name)
 	nPairs := 1 + t.r.Intn(3)
 	var sb strings.Builder
 	sb.WriteString(header(t, fmt.Sprintf("\"exp/%s/ext\"", t.name)))
